@@ -40,6 +40,8 @@ def run(ck, fb):
     r02g(ck, fb)
     r02h(ck, fb)
     r02i(ck, fb)
+    r02m(ck, fb)
+    r02n(ck, fb)
     ck.borrow('rules.c03', {'R03b': 'R02j', 'R03g': 'R02k', 'R03i': 'R02l'}, 'a truncation that leaves wrong cursors / keeps the suffix breaks the reopened log')
 
 
@@ -353,3 +355,41 @@ def r02i(ck, fb, R='R02i'):
     if mv:
         ck.require(len(util.region_calls(fb, mv, r'MessageBufReader::is_empty$')) >= 1, R,
                    'move_to_index_by_count:uses-is_empty', mv.where(), 'the recovery scan no longer asks the reader for the end marker')
+
+
+def r02m(ck, fb, R='R02m'):
+    ck.rule(R, 'the compaction bound of a partially covered log file is durable: in RaftLogManager::split_off every RaftLogRequest::SplitOff(x) handed '
+               'to a file actor is accompanied on the same path by the assignment log_range.split_off_index = x. The LogRange list is the only copy '
+               'that is saved (SaveLogs) and from which a file actor is recreated; without the assignment compacted entries are returned again '
+               'after a restart, in front of the snapshot pointer')
+    b = ck.body(LM + 'split_off', R)
+    if not b:
+        return
+    sd = util.sends(b, r'RaftLogRequest$', 'SplitOff')
+    ck.floor(R, 'SplitOff sends in split_off', len(sd), 1)
+    ws = [(bb, st) for (o, f, bb, st) in b.field_writes() if f == 'split_off_index']
+    for (s0, m0, v0, a0) in sd:
+        t = Taint(b, local_src=[l for l in range(1, b.argc + 1) if b.local_ty(l) == 'u64'])
+        ok = any((bb == s0.bb or s0.bb in cfg.reach_from(b, [bb]) or bb in cfg.reach_from(b, [s0.bb])) and
+                 cfg.dominates_blocks(b, {bb}, s0.bb) and any(t.op_tainted(x) for x in rv_operands(st['rv'])) for (bb, st) in ws)
+        ck.require(ok, R, 'split_off:bound-recorded-in-log-range', s0.where(),
+                   'the file actor is told the new split-off bound but the LogRange entry keeps the old one: the bound is lost with the actor')
+
+
+def r02n(ck, fb, R='R02n'):
+    ck.rule(R, 'the last term reported after a reopen is the term of the LAST record: LogInnerManager::init re-reads it with read_records(end-1, end) '
+               'where end is the exclusive end index (get_end_index / start_index + msg_count), not the inclusive last index of '
+               'get_last_index_info(); one less, and a node that restarts right after a leader change reports the previous term for its last entry')
+    b = ck.main(LIM + 'init', R)
+    if not b:
+        return
+    rr = b.calls(re.escape(LIM + 'read_records') + '$')
+    ck.floor(R, 'read_records in init', len(rr), 1)
+    good = Taint(b, call_src=lambda t: (t.get('f') or {}).get('d', '').endswith('LogInnerManager::get_end_index'), place_src=field_place_src('msg_count'))
+    bad = Taint(b, call_src=lambda t: (t.get('f') or {}).get('d', '').endswith('LogInnerManager::get_last_index_info'))
+    for s0 in rr:
+        up = s0.args[2] if len(s0.args) > 2 else None
+        ok = up is not None and good.op_tainted(up) and not bad.op_tainted(up)
+        ck.require(ok, R, 'init:last-term-from-last-record', s0.where(),
+                   'the record whose term becomes last_term is read up to %s, which is not the exclusive end index: the second-to-last record is read' %
+                   (cfg.fmt_desc(cfg.describe_operand(b, up))[:60] if up is not None else '?'))
